@@ -26,7 +26,9 @@ Step ==
                          /\ st' = TokNext(names, los, his, st, e.hi)
                          /\ UNCHANGED <<mode, names, los, his>>
       [] e.ev = "End" -> mode = "tok" /\ EndEnabled(names, st, e.eof) /\ UNCHANGED pvars
-      [] e.ev = "Is"  -> mode = "is" /\ IsFactOK(e.len, e.isIdent, e.oneIdent, e.isURL, e.oneURL) /\ UNCHANGED pvars
+      \* intact: the argument was handed over as a piece of a longer text ("url(" argument ")"), and that text reads the same
+      \* after the two questions as before -- the bytes the answers are about are still there to be lexed
+      [] e.ev = "Is"  -> mode = "is" /\ IsFactOK(e.len, e.isIdent, e.oneIdent, e.isURL, e.oneURL) /\ ("intact" \in DOMAIN e => e.intact) /\ UNCHANGED pvars
       [] OTHER -> FALSE
 
 TStart == l <= NEvents /\ IsStart /\ Open /\ bad' = FALSE /\ l' = l + 1
